@@ -15,6 +15,9 @@ extstrip = None
 class LinkEntry(GopherEntry):
     def __init__(self, selector: str, config: configparser.ConfigParser):
         super().__init__(selector, config)
+        # Not numbered unless the block says so (0 would count as "set"
+        # when the block is merged into an existing entry).
+        self.num = None
         self.needsmerge = False
         self.needsabspath = False
 
